@@ -2,7 +2,7 @@
    Local theorems (what one processed request / message does); convergence of the handshake and
    edge progress over the network model are explored in pipeline mode (C06_edge_progress_partial). *)
 From Coq Require Import ZArith List Bool Lia.
-From OF Require Import Base.Str Proto.Wire Proto.Receiver Proto.Receiver_Lemmas Proto.Sender Proto.Sender_Safety.
+From OF Require Import Base.Str Proto.Wire Proto.Receiver Proto.Receiver_Lemmas Proto.Receiver_Registered Proto.Sender Proto.Sender_Safety.
 Import ListNotations.
 Open Scope Z_scope.
 
@@ -64,6 +64,16 @@ Proof.
   exists c. split; [exact Hc|apply Z.eqb_eq; exact He].
 Qed.
 Print Assumptions C06_required_output_waited_for.
+
+(* no lost registration (the receiver-local half of deadlock freedom): in a non-balanced receiver a source is outside the
+   poller ONLY while it holds a complete set; whenever its set is discarded or replaced the source is (still or again)
+   polled, so the messages that will complete it can be read - in every reachable state, for every input sequence *)
+Theorem C06_no_lost_registration :
+  forall cid low_latency cs its i s,
+    nth_error (srcs (fst (rrun Repaired (init_receiver cid false low_latency cs) its))) i = Some s ->
+    registered s = false -> got_all s = true.
+Proof. exact receiver_no_lost_registration. Qed.
+Print Assumptions C06_no_lost_registration.
 
 (* Non-vacuity: client 1 asks for id 7 of a freshly started publisher (min_send_id 0): id 8 is adopted. *)
 Theorem C06_nonvacuous :
